@@ -7,8 +7,8 @@ set -u
 NAME=$1; T=$2; shift 2
 S=/verif/seeded/$NAME; P=/tmp/seedns/$NAME
 rm -rf $P; mkdir -p $P
-rsync -a --exclude /target /repo/ $P/repo/ || exit 2
-rsync -a --exclude /replays --exclude /work/replay_* /verif/ $P/verif/ || exit 2
+rsync -a --exclude /target /repo/ $P/repo/; rc=$?; [ $rc -eq 0 ] || [ $rc -eq 24 ] || exit 2
+rsync -a --exclude /replays --exclude /work/replay_* /verif/ $P/verif/; rc=$?; [ $rc -eq 0 ] || [ $rc -eq 24 ] || exit 2   # 24: files vanished while copying (another check rebuilding)
 git -C $P/repo checkout -q -- . 2>/dev/null
 git -C $P/repo apply $S/patch.diff || { echo "patch does not apply"; rm -rf $P; exit 2; }
 : > $P/detect.log
